@@ -1,5 +1,6 @@
 import GoWebdav.Lemmas.CarddavRead
 import GoWebdav.Lemmas.CarddavAgree
+import GoWebdav.Lemmas.CarddavNoise
 import GoWebdav.Props.C09Full
 /-!
 # C09, client → wire in RFC 6352 form — against an independent strict reader
@@ -49,6 +50,11 @@ theorem C09_rfc_document_reaches_backend (n : Node) (q : Query) (h : readQuery n
     (hlim : q.limit < 9223372036854775808) : decodeQuery n = .ok (some q) :=
   GoWebdav.Lemmas.CarddavAgree.decodeQuery_of_read n q h hlim
 
+/-- the same for every addressbook-multiget document the strict reader accepts (the hrefs in document order) -/
+theorem C09_rfc_multiget_reaches_backend (unescape : String → Option String) (n : Node) (m : MultiGet)
+    (h : readMultiGet unescape n = some m) : decodeMultiGet unescape n = .ok m :=
+  GoWebdav.Lemmas.CarddavAgree.decodeMultiGet_of_read unescape n m h
+
 /-- a conformant document the library's own client never writes (DAV:propname first, explicit default attributes, a
     collation, versioned address-data with novalue) meets the hypothesis -/
 def foreignDoc : Node :=
@@ -64,6 +70,34 @@ example : readQuery foreignDoc = some ⟨false, [], "anyof", [⟨"EMAIL", "allof
     [⟨"TYPE", false, some ⟨"home", false, "equals"⟩⟩]⟩], 25⟩ := by decide
 example : decodeQuery foreignDoc = .ok (some ⟨false, [], "anyof", [⟨"EMAIL", "allof", false, [⟨" x ", false, "contains"⟩],
     [⟨"TYPE", false, some ⟨"home", false, "equals"⟩⟩]⟩], 25⟩) := by decide
+
+/-- the server's decoder does not see insignificant content — comments, and white space between the elements of an
+    element-content model — anywhere in ANY document (the character data of text-match, nresults and href is left
+    alone: there white space is data) -/
+theorem C09_decoder_ignores_insignificant_content (n : Node) :
+    decodeQuery (Spec.XmlNoise.clean Lemmas.CarddavNoise.pc n) = decodeQuery n :=
+  Lemmas.CarddavNoise.decodeQuery_clean n
+
+/-- …hence every document that is RFC-conformant once that content is set aside (pretty-printed, commented) reaches the
+    backend as the query it denotes -/
+theorem C09_rfc_document_reaches_backend_lexical (n : Node) (q : Query)
+    (h : readQuery (Spec.XmlNoise.clean Lemmas.CarddavNoise.pc n) = some q) (hlim : q.limit < 9223372036854775808) :
+    decodeQuery n = .ok (some q) :=
+  Lemmas.CarddavNoise.decodeQuery_of_read_clean n q h hlim
+
+/-- a pretty-printed, commented spelling of a query whose text-match text is white space only: the indentation goes,
+    the match text stays -/
+def prettyDoc : Node :=
+  el "addressbook-query" []
+    [.text "\n  ", .comment "which properties", dav "prop" [.text "\n    ", el "address-data" [] [.text " ", el "allprop" [] [], .text " "], .text "\n  "],
+     .text "\n  ", el "filter" []
+       [.text "\n    ", el "prop-filter" [att "name" "NOTE"] [.text "\n      ", el "text-match" [att "match-type" "equals"] [.text "  "], .text "\n    "],
+        .text "\n  "],
+     .text "\n"]
+
+example : readQuery (Spec.XmlNoise.clean Lemmas.CarddavNoise.pc prettyDoc) =
+    some ⟨true, [], "", [⟨"NOTE", "", false, [⟨"  ", false, "equals"⟩], []⟩], 0⟩ := by decide
+example : readQuery prettyDoc = none := by decide
 
 /-- the strict reader is strict: the same query with the limit in the DAV: namespace, a filter before the property
     request, an undeclared attribute, or an enumeration value outside the DTD is refused -/
